@@ -12,15 +12,15 @@ git -C /repo worktree add --detach $wt HEAD >/dev/null 2>&1 || { echo "cannot cr
 cd $wt
 git apply $out/demo.diff || { echo "demo.diff does not apply"; exit 2; }
 echo "== (1) demo WITHOUT the change"
-timeout 1800 cargo test --offline -p $crate $demo_args 2>&1 | grep -E "^test result|^test .*(FAILED|ok)$|panicked|error(\[|:)" | tail -8
+timeout 3000 cargo test --offline -p $crate $SEED_FEATURES $demo_args 2>&1 | grep -E "^test result|^test .*(FAILED|ok)$|panicked|error(\[|:)" | tail -8
 r1=${PIPESTATUS[0]}
 git apply $out/patch.diff || { echo "patch.diff does not apply"; exit 2; }
 echo "== (2) demo WITH the change"
-timeout 1800 cargo test --offline -p $crate $demo_args 2>&1 | grep -E "^test result|^test .*(FAILED|ok)$|panicked|error(\[|:)" | tail -8
+timeout 3000 cargo test --offline -p $crate $SEED_FEATURES $demo_args 2>&1 | grep -E "^test result|^test .*(FAILED|ok)$|panicked|error(\[|:)" | tail -8
 r2=${PIPESTATUS[0]}
 echo "== (3) existing tests of $crate WITH the change (demo removed)"
 git apply -R $out/demo.diff
-timeout 3000 cargo test --offline -p $crate 2>&1 | grep -E "^test result|FAILED|error(\[|:)" | tail -12
+timeout 3000 cargo test --offline -p $crate $SEED_FEATURES 2>&1 | grep -E "^test result|FAILED|error(\[|:)" | tail -12
 r3=${PIPESTATUS[0]}
 echo "rc: demo-without=$r1 demo-with=$r2 existing-with=$r3   (want 0, non-0, 0)"
 cd /verif
